@@ -317,12 +317,13 @@ def D10_orderOnly (a b : String) : Bool := a != b && isPermOf (tokens a) (tokens
 def hasSub (s pat : String) : Bool := (s.splitOn pat).length > 1
 
 /-- The site class a purely order-related difference belongs to. `hint` is the feature of the
-generated program the diagnostic stems from (`try`, `defnodes`); only the two order classes whose repair
+generated program the diagnostic stems from (`try`, `defnodes`, `bounds`); only the order classes whose repair
 was not applied remain — an order-only difference anywhere else is outside every class. -/
 def orderClass (hint a b : String) : String :=
   if !D10_orderOnly a b then "-"
   else if hint == "try" then "tryDefNodeOrder"
   else if hint == "defnodes" then "defNodeSetOrder"
+  else if hint == "bounds" then "cyclicBoundsOrder"
   else "-"
 
 /-! ## History -/
@@ -394,14 +395,30 @@ def iter {α : Type} (f : α → α) : Nat → α → α
 def gfpCompat (W : World) (ex : Bool) : List (Pid × Nat × Vid) :=
   iter (gfpStep W ex) W.reqs.length (W.reqs.map (·.1))
 
-/-- The class of a history dependence `(h, q)` in world `W`, or `-`: the only cause left is a
-positive answer cached under a recursion-guard assumption, which needs recursive protocols and
-disappears when nothing is cached while an assumption is in force. -/
+/-- The verdict of the recursion-guard algorithm *without any cache*, with the assumptions `S` in
+force: what a fresh checker computes. (In a recursive world `semB` is not the reference: there the
+guard decides.) -/
+def guardVerdict (W : World) (ex : Bool) : Nat → List (Pid × Nat) → Pid → Nat → Vid → Bool
+  | 0, _, _, _, _ => false
+  | n + 1, S, p, a, v =>
+    if S.contains (p, W.tobj v) then true
+    else (W.req p a v).all fun m => m.all fun atm =>
+      match atm with
+      | .const b => b
+      | .anyOk => !ex
+      | .bound _ _ => true
+      | .sub p' a' v' => guardVerdict W ex n (S ++ [(p, W.tobj v)]) p' a' v'
+
+/-- The class of a history dependence `(h, q)` in world `W`, or `-`. One is left: in a recursive world
+(`D10_cyclic`) the verdict is the fresh one but the bounds map lists its bounds differently — the
+recursion guard answers `{}` for the pair under way where a cache hit answers the stored map
+(`cyclic_bounds_map_depends_on_history_witness`). A verdict that depends on the history is outside
+every class. -/
 def historyClass (W : World) (rk : Rank) (fuel : Nat) (h : List Query) (q : Query) : String :=
-  let fresh := (answerFresh W fuel q).isSome
-  if (answerAfter W fuel h q).isSome == fresh then "-"
-  else if D10_cyclic W rk && (answerAfter2 W true true true fuel h q).isSome == fresh then
-    "cacheUnderFailedAssumption"
+  let after := answerAfter W fuel h q
+  let fresh := answerFresh W fuel q
+  if after == fresh then "-"
+  else if after.isSome == fresh.isSome && D10_cyclic W rk then "cyclicBoundsOrder"
   else "-"
 
 end Pya.C10
